@@ -134,7 +134,11 @@ type Op struct {
 	ArtifactType string            `json:"artifactType,omitempty"`
 	URLs         []string          `json:"urls,omitempty"`
 	Data         bool              `json:"data,omitempty"` // embed the node's bytes as descriptor.data
-	Err          string            `json:"err,omitempty"`  // outcome class, filled by the executor
+	// Resolved: the descriptor passed to Tag is the one Resolve(<digest>)
+	// returns (for plain blobs: media type application/octet-stream, not the
+	// pushed one) — a legal and natural way to obtain a descriptor
+	Resolved bool   `json:"resolved,omitempty"`
+	Err      string `json:"err,omitempty"` // outcome class, filled by the executor
 }
 
 func (o Op) String() string {
@@ -143,6 +147,9 @@ func (o Op) String() string {
 		return fmt.Sprintf("%s(%d)", o.Kind, o.Node)
 	case "tag":
 		x := ""
+		if o.Resolved {
+			x += ",via-resolve"
+		}
 		if len(o.Ann) > 0 {
 			x += ",+ann"
 		}
@@ -185,6 +192,13 @@ func Apply(ctx context.Context, s *oci.Store, nodes []Node, op Op) error {
 		return s.Push(ctx, n.Desc, noWriterTo{bytes.NewReader(bad)})
 	case "tag":
 		d := nodes[op.Node].Desc
+		if op.Resolved {
+			r, err := s.Resolve(ctx, d.Digest.String())
+			if err != nil {
+				return err
+			}
+			d = r
+		}
 		if len(op.Ann) > 0 {
 			d.Annotations = map[string]string{}
 			for k, v := range op.Ann {
@@ -251,6 +265,7 @@ type OpGen struct {
 	TagCount   int
 	Weights    map[string]int
 	AllowBadOp bool // occasionally aim an operation at something absent
+	NoResolved bool // never tag through Resolve(<digest>)
 }
 
 // NewOpGen prepares a generator with k reference names.
@@ -339,6 +354,20 @@ func (g *OpGen) extras(rng *rand.Rand, op *Op, force bool) {
 	}
 }
 
+// viaResolve makes some tag operations use the descriptor obtained from
+// Resolve(<digest>): always interesting for plain blobs (layers, configs),
+// whose resolved media type differs from the pushed one.
+func (g *OpGen) viaResolve(rng *rand.Rand, op *Op) {
+	if g.NoResolved {
+		return
+	}
+	if g.Nodes[op.Node].Manifest {
+		op.Resolved = rng.IntN(6) == 0
+	} else {
+		op.Resolved = rng.IntN(2) == 0
+	}
+}
+
 // Next draws the next operation.
 func (g *OpGen) Next(ctx context.Context, rng *rand.Rand, s *oci.Store) Op {
 	have, missing := g.present(ctx, s)
@@ -393,6 +422,7 @@ func (g *OpGen) Next(ctx context.Context, rng *rand.Rand, s *oci.Store) Op {
 			}
 			op := Op{Kind: "tag", Node: id, Ref: ref, Ann: g.ann(rng)}
 			g.extras(rng, &op, false)
+			g.viaResolve(rng, &op)
 			return op
 		case "retag":
 			if len(have) == 0 || len(used) == 0 {
@@ -423,6 +453,7 @@ func (g *OpGen) Next(ctx context.Context, rng *rand.Rand, s *oci.Store) Op {
 			}
 			op := Op{Kind: "tag", Node: pickTagTarget(rng, g.Nodes, have), Ref: ref, Ann: g.ann(rng)}
 			g.extras(rng, &op, false)
+			g.viaResolve(rng, &op)
 			return op
 		case "untag":
 			if bad {
@@ -988,4 +1019,159 @@ func StateHash(dir string) string {
 	sort.Strings(items)
 	h := sha256.Sum256([]byte(strings.Join(items, "\n")))
 	return hex.EncodeToString(h[:8])
+}
+
+// ---------------------------------------------------------------------------
+// archives refreshed in place
+
+// TarTracker keeps two archives of a layout directory that were made earlier
+// in the history and are later UPDATED by appending the changed and new files:
+// one written by the system tar and updated with `tar -r`, one written by
+// archive/tar and updated by archive/tar in append mode. In a tar archive the
+// last entry of a name wins, so a store opened from the updated archive must
+// observe what the directory holds. Appending cannot express removals: when a
+// file of the archived snapshot has disappeared the archives are made afresh.
+type TarTracker struct {
+	Scratch string
+	SysTar  string
+	GoTar   string
+	snap    map[string]string
+	// Updates counts how often the current archives were updated in place
+	// (0: freshly made, identical to the plain tar reopen paths).
+	Updates int
+}
+
+func hashTree(dir string) (map[string]string, error) {
+	out := map[string]string{}
+	err := filepath.WalkDir(dir, func(p string, d fs.DirEntry, err error) error {
+		if err != nil {
+			return err
+		}
+		if !d.Type().IsRegular() {
+			return nil
+		}
+		b, err := os.ReadFile(p)
+		if err != nil {
+			return err
+		}
+		rel, _ := filepath.Rel(dir, p)
+		h := sha256.Sum256(b)
+		out[filepath.ToSlash(rel)] = hex.EncodeToString(h[:])
+		return nil
+	})
+	return out, err
+}
+
+// Refresh brings the archives up to date with dir: made afresh (Updates = 0)
+// or updated by appending (Updates++). It reports whether anything was appended.
+func (t *TarTracker) Refresh(dir string) (bool, error) {
+	cur, err := hashTree(dir)
+	if err != nil {
+		return false, fmt.Errorf("harness: %w", err)
+	}
+	fresh := t.snap == nil
+	for f := range t.snap {
+		if _, ok := cur[f]; !ok {
+			fresh = true
+		}
+	}
+	if fresh {
+		if t.SysTar == "" {
+			t.SysTar = filepath.Join(t.Scratch, "tracked-sys.tar")
+			t.GoTar = filepath.Join(t.Scratch, "tracked-go.tar")
+		}
+		os.Remove(t.SysTar)
+		os.Remove(t.GoTar)
+		if out, err := exec.Command("tar", "-cf", t.SysTar, "-C", dir, ".").CombinedOutput(); err != nil {
+			return false, fmt.Errorf("harness: tar -c: %v: %s", err, out)
+		}
+		if err := WriteTar(dir, t.GoTar); err != nil {
+			return false, fmt.Errorf("harness: %w", err)
+		}
+		t.snap, t.Updates = cur, 0
+		return false, nil
+	}
+	var changed []string
+	for f, h := range cur {
+		if t.snap[f] != h {
+			changed = append(changed, f)
+		}
+	}
+	if len(changed) == 0 {
+		return false, nil
+	}
+	sort.Strings(changed)
+	args := []string{"-rf", t.SysTar, "-C", dir}
+	for _, f := range changed {
+		args = append(args, "./"+f)
+	}
+	if out, err := exec.Command("tar", args...).CombinedOutput(); err != nil {
+		return false, fmt.Errorf("harness: tar -r: %v: %s", err, out)
+	}
+	if err := appendGoTar(t.GoTar, dir, changed); err != nil {
+		return false, fmt.Errorf("harness: append to tar: %w", err)
+	}
+	t.snap = cur
+	t.Updates++
+	return true, nil
+}
+
+// appendGoTar appends files to an archive written by archive/tar: the
+// 1024-byte end-of-archive trailer is cut off and new entries are written after
+// the existing ones.
+func appendGoTar(tarPath, dir string, files []string) error {
+	f, err := os.OpenFile(tarPath, os.O_RDWR, 0)
+	if err != nil {
+		return err
+	}
+	defer f.Close()
+	st, err := f.Stat()
+	if err != nil {
+		return err
+	}
+	if st.Size() < 1024 {
+		return fmt.Errorf("archive too short")
+	}
+	trailer := make([]byte, 1024)
+	if _, err := f.ReadAt(trailer, st.Size()-1024); err != nil {
+		return err
+	}
+	for _, b := range trailer {
+		if b != 0 {
+			return fmt.Errorf("archive does not end with the two zero blocks")
+		}
+	}
+	if _, err := f.Seek(st.Size()-1024, io.SeekStart); err != nil {
+		return err
+	}
+	tw := tar.NewWriter(f)
+	for _, rel := range files {
+		p := filepath.Join(dir, filepath.FromSlash(rel))
+		info, err := os.Stat(p)
+		if err != nil {
+			return err
+		}
+		hdr, err := tar.FileInfoHeader(info, "")
+		if err != nil {
+			return err
+		}
+		hdr.Name = rel
+		b, err := os.ReadFile(p)
+		if err != nil {
+			return err
+		}
+		hdr.Size = int64(len(b))
+		if err := tw.WriteHeader(hdr); err != nil {
+			return err
+		}
+		if _, err := tw.Write(b); err != nil {
+			return err
+		}
+	}
+	return tw.Close()
+}
+
+// OpenTar opens a store from an archive (the archive must stay in place).
+func OpenTar(ctx context.Context, path string) (ReadStore, error) {
+	return oci.NewFromTar(ctx, path)
 }
